@@ -326,3 +326,191 @@ Proof.
   split; [exact G3|]. split; [|cbn; congruence].
   change (keys (push_path [i] c2)) with (keys c2). now rewrite Hk3, Hk1, Hs1.
 Qed.
+
+(* ------------------------------------------------------------------ *)
+(* remove_ix / simplify_batch                                           *)
+Definition keeps (ix : nat) (lg lg' : clegs) : Prop := forall ix2, ix2 <> ix -> In ix2 (map fst lg) -> In ix2 (map fst lg').
+Definition upd_node (ix : nat) (nd : list (nat * clegs)) (node : nat) : list (nat * clegs) :=
+  match nget node nd with
+  | Some lg => nset_ node (filter (fun kv => negb (Nat.eqb (fst kv) ix)) lg) nd
+  | None => nd
+  end.
+
+Lemma filter_keeps ix lg : keeps ix lg (filter (fun kv => negb (Nat.eqb (fst kv) ix)) lg).
+Proof.
+  intros ix2 Hne Hin. apply in_map_iff in Hin as ([a b] & <- & Hp). apply in_map_iff. exists (a, b). split; [reflexivity|].
+  apply filter_In. split; [assumption|]. cbn. apply negb_true_iff, Nat.eqb_neq. exact Hne.
+Qed.
+
+Lemma upd_fold_spec ix : forall ns nd,
+  map fst (fold_left (upd_node ix) ns nd) = map fst nd /\
+  forall j lg, nget j nd = Some lg -> exists lg', nget j (fold_left (upd_node ix) ns nd) = Some lg' /\ keeps ix lg lg'.
+Proof.
+  induction ns as [|node ns IH]; intros nd; cbn [fold_left].
+  - split; [reflexivity|]. intros j lg G. exists lg. split; [assumption|]. intros ? ? H. exact H.
+  - destruct (IH (upd_node ix nd node)) as [Hk Hs]. split.
+    + rewrite Hk. unfold upd_node. apply (upd_keys (filter (fun kv : nat * nat => negb (Nat.eqb (fst kv) ix)))).
+    + intros j lg G.
+      assert (H1 : exists lg1, nget j (upd_node ix nd node) = Some lg1 /\ keeps ix lg lg1).
+      { unfold upd_node. destruct (nget node nd) as [lgn|] eqn:Gn; [|exists lg; split; [assumption|intros ? ? H; exact H]].
+        destruct (Nat.eq_dec j node) as [->|Hne].
+        - rewrite G in Gn. injection Gn as <-. eexists. split; [apply nget_nset_same|apply filter_keeps].
+        - exists lg. split; [now rewrite nget_nset_other|intros ? ? H; exact H]. }
+      destruct H1 as (lg1 & G1 & K1). destruct (Hs j lg1 G1) as (lg' & G' & K').
+      exists lg'. split; [assumption|]. intros ix2 Hne Hin. apply K', K1; assumption.
+Qed.
+
+Lemma remove_ix_good ix c ns : Good c -> nget ix (cp_edges c) = Some ns ->
+  Good (remove_ix ix c) /\ keys (remove_ix ix c) = keys c /\ cp_ssa (remove_ix ix c) = cp_ssa c /\
+  cp_edges (remove_ix ix c) = ndel ix (cp_edges c).
+Proof.
+  intros (O & K & [NE HE] & Hne) G. unfold remove_ix. rewrite G.
+  destruct (upd_fold_spec ix ns (cp_nodes c)) as [Hk Hs].
+  match goal with |- Good ?x /\ _ => set (c' := x) end.
+  assert (Hkeys : keys c' = keys c) by exact Hk.
+  assert (Hssa : cp_ssa c' = cp_ssa c) by reflexivity.
+  assert (Hedges : cp_edges c' = ndel ix (cp_edges c)) by reflexivity.
+  assert (Hnodes : cp_nodes c' = fold_left (upd_node ix) ns (cp_nodes c)) by reflexivity.
+  assert (Hok : cp_ok c' = true).
+  { unfold c'. cbn [cp_ok]. rewrite O. cbn. apply forallb_forall. intros node Hn.
+    destruct (HE ix ns G) as [_ Hm]. destruct (Hm node Hn) as (lg & Gn & _). now rewrite Gn. }
+  clearbody c'.
+  split; [|repeat split; assumption].
+  split; [exact Hok|]. split; [unfold KInv; rewrite Hkeys, Hssa; exact K|]. split; [|rewrite Hkeys; exact Hne].
+  split; [rewrite Hedges; now apply ndel_keys_nodup|].
+  rewrite Hedges, Hnodes. intros ix2 ns2 G2.
+  assert (Hix : ix2 <> ix) by (intros ->; rewrite nget_ndel_same in G2 by assumption; discriminate).
+  rewrite nget_ndel_other in G2 by assumption. destruct (HE ix2 ns2 G2) as [NDn Hm]. split; [assumption|].
+  intros j Hj. destruct (Hm j Hj) as (lg & Gj & Hin). destruct (Hs j lg Gj) as (lg' & G' & Kp).
+  exists lg'. split; [assumption|]. now apply Kp.
+Qed.
+
+Lemma batch_fold_good : forall rm c, Good c -> NoDup rm -> (forall ix, In ix rm -> nget ix (cp_edges c) <> None) ->
+  Good (fold_left (fun c' ix => remove_ix ix c') rm c).
+Proof.
+  induction rm as [|ix rm IH]; intros c G ND Hin; cbn [fold_left]; [assumption|].
+  inversion ND as [|? ? Hx ND']; subst.
+  destruct (nget ix (cp_edges c)) as [ns|] eqn:Gx; [|exfalso; apply (Hin ix); [now left|assumption]].
+  destruct (remove_ix_good ix c ns G Gx) as (G1 & _ & _ & He). apply IH; [assumption|assumption|].
+  intros ix2 H2. rewrite He, nget_ndel_other; [apply Hin; now right|]. intros ->. contradiction.
+Qed.
+
+Lemma NoDup_map_fst_filter {V} (f : nat * V -> bool) d : NoDup (map fst d) -> NoDup (map fst (filter f d)).
+Proof.
+  induction d as [|[a v] d IH]; intros ND; [constructor|]. inversion ND as [|? ? Ha ND']; subst. cbn [filter].
+  destruct (f (a, v)); [|now apply IH]. cbn [map fst]. constructor; [|now apply IH].
+  intros Hc. apply Ha. apply in_map_iff in Hc as (p & Hp & Hin). apply filter_In in Hin as [Hin _].
+  apply in_map_iff. exists p. auto.
+Qed.
+
+Lemma simplify_batch_good c : Good c -> Good (simplify_batch c).
+Proof.
+  intros G. unfold simplify_batch. apply batch_fold_good; [assumption| |].
+  - apply NoDup_map_fst_filter. apply G.
+  - intros ix Hin. apply in_map_iff in Hin as ([a ns] & <- & Hp). apply filter_In in Hp as [Hp _].
+    cbn [fst]. rewrite (in_nget a ns (cp_edges c)); [discriminate|apply G|assumption].
+Qed.
+
+(* ------------------------------------------------------------------ *)
+(* simplify_single_terms                                                *)
+Lemma single_terms_fold_good app0 : forall R c, Good c -> NoDup (map fst R) -> (forall i, In i (map fst R) -> In i (keys c)) ->
+  Good (fold_left (fun c' (il : nat * clegs) =>
+                     let '(i, lg) := il in
+                     if is_simplifiable app0 lg then
+                       let '(c1, lg1) := pop_node i c' in
+                       let '(c2, _) := add_node (compute_simplified app0 lg1) c1 in push_path [i] c2
+                     else c') R c).
+Proof.
+  induction R as [|[i lg] R IH]; intros c G ND Hin; cbn [fold_left]; [assumption|].
+  cbn [map fst] in ND, Hin. inversion ND as [|? ? Hi ND']; subst.
+  destruct (is_simplifiable app0 lg).
+  - destruct (single_good i (compute_simplified app0) c G (Hin i (or_introl eq_refl))) as (G1 & Hk & _).
+    apply IH; [exact G1|assumption|]. intros x Hx. rewrite Hk. apply in_or_app. left.
+    apply remove_all_in. split; [apply Hin; now right|]. intros [->|[]]. contradiction.
+  - apply IH; [assumption|assumption|]. intros x Hx. apply Hin. now right.
+Qed.
+
+Lemma simplify_single_terms_good c : Good c -> Good (simplify_single_terms c).
+Proof.
+  intros G. unfold simplify_single_terms. apply single_terms_fold_good; [assumption|apply G|]. intros i Hi. exact Hi.
+Qed.
+
+(* ------------------------------------------------------------------ *)
+(* simplify_scalars                                                     *)
+Lemma NoDup_app_r {B} (a b : list B) : NoDup (a ++ b) -> NoDup b.
+Proof. induction a as [|x a IH]; cbn; intros H; [assumption|]. inversion H; subst. auto. Qed.
+Lemma NoDup_drop_mid {B} (a b c : list B) : NoDup (a ++ b ++ c) -> NoDup (a ++ c).
+Proof.
+  intros H. assert (P : Permutation (a ++ b ++ c) (b ++ a ++ c)).
+  { rewrite !app_assoc. apply Permutation_app_tail, Permutation_app_comm. }
+  eapply Permutation_NoDup in H; [|exact P]. now apply NoDup_app_r in H.
+Qed.
+
+Definition jid (j : option (nat * nat)) : list nat := match j with Some (x, _) => [x] | None => [] end.
+
+Lemma scalars_scan_spec : forall nodes sc j,
+  NoDup (sc ++ jid j ++ map fst nodes) ->
+  let r := scalars_scan nodes sc j in
+  NoDup (fst r ++ jid (snd r)) /\ incl (fst r ++ jid (snd r)) (sc ++ jid j ++ map fst nodes) /\
+  (sc <> [] -> fst r <> []).
+Proof.
+  induction nodes as [|[i lg] nodes IH]; intros sc j ND; cbn [scalars_scan].
+  - cbn [map app] in *. rewrite app_nil_r in ND. cbn [fst snd]. split; [assumption|]. split; [|auto].
+    rewrite app_nil_r. apply incl_refl.
+  - cbn [map fst] in ND.
+    assert (P1 : Permutation (sc ++ jid j ++ i :: map fst nodes) ((sc ++ [i]) ++ jid j ++ map fst nodes)).
+    { rewrite <- app_assoc. apply Permutation_app_head. cbn [app]. apply Permutation_sym, Permutation_middle. }
+    destruct (Nat.eqb (length lg) 0).
+    + destruct (IH (sc ++ [i]) j) as (A & B & C); [eapply Permutation_NoDup; [exact P1|exact ND]|].
+      split; [exact A|]. split.
+      * intros x Hx. eapply Permutation_in; [apply Permutation_sym; exact P1|]. now apply B.
+      * intros _. apply C. intros Hc. apply app_eq_nil in Hc as [_ Hc]. discriminate.
+    + assert (Hsub : forall v, NoDup (sc ++ jid (Some (i, v)) ++ map fst nodes)).
+      { intros v. cbn [jid app]. now apply NoDup_drop_mid in ND. }
+      assert (Hincl : forall v, incl (sc ++ jid (Some (i, v)) ++ map fst nodes) (sc ++ jid j ++ i :: map fst nodes)).
+      { intros v x Hx. cbn [jid app] in Hx. apply in_or_app. apply in_app_or in Hx as [Hx|Hx]; [now left|].
+        right. apply in_or_app. now right. }
+      assert (Hskip : NoDup (sc ++ jid j ++ map fst nodes) /\ incl (sc ++ jid j ++ map fst nodes) (sc ++ jid j ++ i :: map fst nodes)).
+      { split.
+        - rewrite app_assoc in *. eapply NoDup_remove_1; exact ND.
+        - intros x Hx. rewrite app_assoc in *. apply in_app_or in Hx as [Hx|Hx]; apply in_or_app; [now left|right; now right]. }
+      destruct j as [[jn jl]|].
+      * destruct (Nat.ltb (length lg) jl).
+        -- destruct (IH sc (Some (i, length lg)) (Hsub _)) as (A & B & C). split; [exact A|]. split; [|exact C].
+           intros x Hx. apply (Hincl (length lg)). now apply B.
+        -- destruct Hskip as [S1 S2]. destruct (IH sc (Some (jn, jl)) S1) as (A & B & C). split; [exact A|]. split; [|exact C].
+           intros x Hx. apply S2. now apply B.
+      * destruct (IH sc (Some (i, length lg)) (Hsub _)) as (A & B & C). split; [exact A|]. split; [|exact C].
+        intros x Hx. apply (Hincl (length lg)). now apply B.
+Qed.
+
+Lemma contract_fold_good : forall rest c a, Good c -> In a (keys c) -> NoDup rest -> ~ In a rest ->
+  (forall x, In x rest -> In x (keys c)) ->
+  Good (fst (fold_left (fun st s => let '(c', acc) := st in contract_nodes acc s None c') rest (c, a))).
+Proof.
+  induction rest as [|s rest IH]; intros c a G Ha ND Hna Hin; cbn [fold_left]; [exact G|].
+  inversion ND as [|? ? Hs ND']; subst.
+  assert (Has : a <> s) by (intros ->; apply Hna; now left).
+  destruct (contract_nodes_good a s None c G Ha (Hin s (or_introl eq_refl)) Has) as (G1 & Hk & Hs1 & Hr & _).
+  destruct (contract_nodes a s None c) as [c1 k] eqn:E. cbn [fst snd] in *. subst k.
+  apply IH; [exact G1| |assumption| |].
+  - rewrite Hk. apply in_or_app. right. now left.
+  - intros Hc. assert (In (cp_ssa c) (keys c)) by (apply Hin; now right). apply G in H. lia.
+  - intros x Hx. rewrite Hk. apply in_or_app. left. apply remove_all_in. split; [apply Hin; now right|].
+    intros [->|[->|[]]]; [apply Hna; now right|contradiction].
+Qed.
+
+Lemma simplify_scalars_good c : Good c -> Good (simplify_scalars c).
+Proof.
+  intros G. unfold simplify_scalars.
+  pose proof (scalars_scan_spec (cp_nodes c) [] None) as S. cbn [app jid] in S. specialize (S (proj1 (proj1 (proj2 G)))).
+  destruct (scalars_scan (cp_nodes c) [] None) as [sc j]. cbn [fst snd] in S. destruct S as (ND & Hincl & _).
+  destruct sc as [|s0 sc']; [exact G|].
+  assert (Hall : (match j with Some (jn, _) => (s0 :: sc') ++ [jn] | None => s0 :: sc' end) = (s0 :: sc') ++ jid j).
+  { destruct j as [[jn jl]|]; [reflexivity|]. cbn [jid]. now rewrite app_nil_r. }
+  rewrite Hall. destruct ((s0 :: sc') ++ jid j) as [|a rest] eqn:Eall; [exact G|].
+  inversion ND as [|? ? Ha ND']; subst.
+  apply contract_fold_good; [exact G| |assumption|assumption|].
+  - apply Hincl. now left.
+  - intros x Hx. apply Hincl. now right.
+Qed.
